@@ -54,8 +54,8 @@ class Gen:
             op, c, v = r.choice([('>', 3, 5), ('<', 3, 1), ('=', 'a', 'a'), ('!', 2, 3), ('g', 5, 5), ('l', 0, -1)])
             return ['MExpr', ['M'], op, (['Str', c] if isinstance(c, str) else ['Lit', c])], v
         if k == 'regex':
-            i = r.choice([0, 1])
-            return ['Regex', i], {0: 'aaa', 1: '123'}[i]
+            i = r.choice([0, 1, 3, 4])
+            return ['Regex', i], {0: 'aaa', 1: '123', 3: r.choice(['aab', 'a', 'ab ']), 4: r.choice(['xxay', 'a', 'ba'])}[i]
         if k == 'and':
             return ['And', [['Type', 'int'], ['MExpr', ['M'], '>', ['Lit', 0]]], None], 3
         if k == 'or':
